@@ -17,5 +17,5 @@ CONSTANTS
   History = TRUE
 CONSTRAINT SentT
 INVARIANTS TypeOK Bound WasSent LruOK
-PROPERTY StepOK
+PROPERTIES ImplConforms ImplExtraOK
 CHECK_DEADLOCK FALSE
